@@ -19,53 +19,64 @@ import vlib
 import c06
 
 ROOT_CAUSES = [
-    ("C06-dense-links-not-read", "group.go:199-290 loadModernGroup",
+    # (id, call site at /repo HEAD b/a539b60 (function names are stable, line numbers are those of that commit), what)
+    ("C06-dense-links-not-read", "group.go loadModernGroup (lines 222-300): only Link messages and the Symbol Table message are read",
      "a group whose links are in dense storage (Link Info message 0x02 with a fractal heap, no Link messages) is returned with no "
      "children and no error: the Link Info message is never read"),
-    ("C06-v2-continuation-not-followed", "internal/core/objectheader.go:184-300 parseV2Header",
-     "version 2 object headers: the continuation message (0x10) is stored like any other message and never followed, so every "
-     "message in a continuation chunk (attributes, links, dataspace ...) is silently missing"),
-    ("C06-attribute-info-type", "internal/core/objectheader.go:59 MsgAttributeInfo = 15; internal/core/attribute.go:413",
-     "dense attribute storage is announced by the Attribute Info message, type 0x15; the reader looks for type 0x0F, never finds "
-     "it and returns an object with many attributes as having none"),
-    ("C06-attribute-parse-error-swallowed", "internal/core/attribute.go:430-434 (continue) and internal/core/objectheader.go:127-137",
+    ("C06-v2-continuation-not-followed", "internal/core/objectheader.go parseV2Header (repaired by 57823d4)",
+     "version 2 object headers: the continuation message (0x10) was stored like any other message and never followed, so every "
+     "message in a continuation chunk (attributes, links, dataspace ...) was silently missing"),
+    ("C06-attribute-info-type", "internal/core/objectheader.go MsgAttributeInfo, internal/core/attribute.go ParseAttributesFromMessages (repaired by dfd678f)",
+     "dense attribute storage is announced by the Attribute Info message, type 0x15; the reader looked for type 0x0F, never found "
+     "it and returned an object with many attributes as having none"),
+    ("C06-attribute-parse-error-swallowed", "internal/core/attribute.go:445-449 ParseAttributesFromMessages (`continue`; pinned by TestReference_AllFiles on "
+     "memleak_H5O_dtype_decode_helper_H5Odtype.h5)",
      "an attribute message that fails to parse (shared/committed datatype, dataspace version 0 ...) is dropped from the list; "
      "Attributes() reports no error"),
-    ("C06-links-skipped", "group.go:236-241, 325-329, 420-424 (soft links), link types other than hard: no representation",
+    ("C06-links-skipped", "group.go:264-270 loadModernGroup (soft: `continue`; external / user-defined: no branch), group.go:371-372 loadTraditionalGroup, "
+     "group.go:434-435 and 452-453 loadChildren (symbol-table soft links)",
      "soft, external and user-defined links are members of the group in the reference report; the reader drops them without error"),
-    ("C06-child-load-error-skipped", "group.go:228-233 loadModernGroup (continue)",
-     "a hard link whose target fails to load is skipped; the group is returned without that member and without error"),
-    ("C06-group-reached-twice-is-empty", "group.go:393-399 loadChildren (File.visitedBTrees never cleared)",
+    ("C06-child-load-error-skipped", "group.go loadModernGroup (repaired by a539b60)",
+     "a hard link whose target fails to load was skipped; the group was returned without that member and without error"),
+    ("C06-group-reached-twice-is-empty", "group.go:399-403 loadChildren (File.visitedBTrees is never cleared)",
      "a group reachable through a second path (hard link to a group) is returned empty under that path"),
-    ("C06-attr-byte-order-ignored", "internal/core/attribute.go:196-275 ReadValue (binary.LittleEndian hard-coded)",
-     "big-endian attribute values (integers and floats) are decoded as little-endian"),
-    ("C06-attr-unsigned-as-signed", "internal/core/attribute.go:196-227 ReadValue (int32/int64 only)",
+    ("C06-attr-byte-order-ignored", "internal/core/attribute.go ReadValue (repaired by 3d92c44)",
+     "big-endian attribute values (integers and floats) were decoded as little-endian"),
+    ("C06-attr-unsigned-as-signed", "internal/core/attribute.go:203,225 ReadValue (int32 / int64 whatever the sign bit says; pinned by "
+     "TestAttributeReadValue_ScalarTypes / _ArrayTypes)",
      "unsigned 32/64-bit integer attributes are returned as int32/int64: values above the signed range come back negative"),
-    ("C06-int64-through-float64", "internal/core/dataset_reader.go:160-176 convertToFloat64 / group.go Read() []float64",
+    ("C06-int64-through-float64", "internal/core/dataset_reader.go:161-176 convertToFloat64, group.go Dataset.Read() []float64",
      "Dataset.Read returns float64: 64-bit integers beyond 2^53 are returned rounded, without error"),
-    ("C06-null-dataspace-as-scalar", "internal/core/dataspace.go:53-58 ParseDataspaceMessage",
-     "a version 2 dataspace of type NULL (no elements) has dimensionality 0 and is reported as a scalar with one element"),
-    ("C06-shared-datatype-not-resolved", "internal/core/objectheader.go (message flags dropped), dataset_reader.go ParseDatatypeMessage",
+    ("C06-null-dataspace-as-scalar", "internal/core/dataspace.go ParseDataspaceMessage (repaired by 1739724)",
+     "a version 2 dataspace of type NULL (no elements) has dimensionality 0 and was reported as a scalar with one element"),
+    ("C06-shared-datatype-not-resolved", "internal/core/objectheader.go parseV1MessagesInBlock / parseV2Header (message flags dropped), "
+     "internal/core/dataset_reader.go ReadDatasetInfo -> ParseDatatypeMessage",
      "a datatype message flagged shared (committed datatype) holds an object address, not a datatype; the reader parses those "
-     "bytes as a datatype and reports a wrong element type"),
-    ("C06-lzf-long-backreference", "internal/core/filterpipeline.go:456-472 lzfDecompress",
-     "LZF long back-references store the extra length byte before the low offset byte; the reader reads them in the opposite "
-     "order and returns wrong values without error"),
-    ("C06-filter-mask-ignored", "internal/core/dataset_reader.go:300-312 readChunkedData (chunk.Key.FilterMask unused)",
+     "bytes as a datatype and reports a wrong element type (class 2, size 0)"),
+    ("C06-lzf-long-backreference", "internal/core/filterpipeline.go lzfDecompress (repaired by 37cc16e)",
+     "LZF long back-references store the extra length byte before the low offset byte; the reader read them in the opposite "
+     "order and returned wrong values without error"),
+    ("C06-filter-mask-ignored", "internal/core/dataset_reader.go readChunkedData (chunk.Key.FilterMask unused)",
      "a chunk whose filter mask excludes a filter is still run through it"),
-    ("C06-optional-filter-failure-skipped", "internal/core/filterpipeline.go:189-196 ApplyFilters",
+    ("C06-optional-filter-failure-skipped", "internal/core/filterpipeline.go ApplyFilters (`if isOptional { continue }`)",
      "when an optional filter fails to decode, the still-encoded bytes are passed on as data"),
-    ("C06-vax-float-as-ieee", "internal/core/datatype.go:247-255 GetByteOrder / IsFloat64",
+    ("C06-vax-float-as-ieee", "internal/core/datatype.go:255 GetByteOrder (bit 0 only), IsFloat64/IsFloat32 (class and size only)",
      "VAX-ordered floating point (byte-order bits 0 and 6 both set) is decoded as IEEE big-endian"),
-    ("C06-compound-unsigned-as-signed", "internal/core/dataset_reader_compound.go:171-185 parseMemberValue",
+    ("C06-compound-unsigned-as-signed", "internal/core/dataset_reader_compound.go parseMemberValue",
      "unsigned 32/64-bit compound members are returned as int32/int64"),
-    ("C06-float-layout-ignored", "internal/core/datatype.go IsFloat32/IsFloat64 (class and size only)",
-     "a floating-point type is identified by class and size only; non-IEEE field layouts of the same size are decoded as IEEE"),
-    ("C06-int-precision-ignored", "internal/core/dataset_reader.go convertToFloat64",
-     "integers whose precision is smaller than the storage size (bit offset / padding) are decoded over all bits"),
     ("C06-ddl-not-from-this-file", "testdata/hdf5_official/ddl (reference output out of sync with the bundled file)",
      "NOT a reader defect: the raw message bytes of the bundled file agree with the reader and contradict the DDL"),
 ]
+
+
+COQ = {"C06-attr-byte-order-ignored": "C06_attr_byte_order_refuted / C06_attr_int_full_refuted",
+       "C06-attr-unsigned-as-signed": "C06_attr_unsigned_refuted / C06_attr_int_full_after_fix_refuted"}
+FIX = {"C06-attribute-info-type": "notes/fixes/c06-attribute-info-dense-errors.patch (turns the silent omission into an error; reading the "
+                                  "reference library's dense attribute records stays unsupported)",
+       "C06-attr-byte-order-ignored": "notes/fixes/c06-attribute-byte-order.patch",
+       "C06-null-dataspace-as-scalar": "notes/fixes/c06-null-dataspace.patch",
+       "C06-lzf-long-backreference": "notes/fixes/c06-lzf-long-backreference.patch",
+       "C06-v2-continuation-not-followed": "notes/fixes/c06-v2-header-continuation.patch"}
 
 
 def evidence(H, path):
@@ -108,6 +119,18 @@ def explain(d, ev, go):
             if same and not (pg.get("children") or []):
                 return "C06-group-reached-twice-is-empty"
         if 6 in ptypes:
+            return "C06-child-load-error-skipped"
+        return None
+    if kind.startswith("dropped-link"):
+        what = kind.split(":")[1]
+        pg = go.get(parent(path))
+        if what in ("softlink", "extlink"):
+            return "C06-links-skipped"
+        if pg is not None and pg.get("addr"):
+            same = [p for p, o in go.items() if o.get("kind") == "group" and o.get("addr") == pg["addr"] and p != parent(path)]
+            if same and not (pg.get("children") or []):
+                return "C06-group-reached-twice-is-empty"
+        if "child loader" in d["got"]:
             return "C06-child-load-error-skipped"
         return None
     if kind == "kind":
@@ -219,6 +242,21 @@ def main():
         with open(c06.KNOWN_PATH, "w") as fh:
             json.dump(out, fh, indent=1)
         print("wrote", c06.KNOWN_PATH)
+        # the same root causes in the layout of /verif/KNOWN_FINDINGS.json "findings" (for the coordinator to copy)
+        first = {}
+        for d in C.disc:
+            first.setdefault((d["file"], d["path"], d["kind"]), d)
+        prop = []
+        for rc, site, what in ROOT_CAUSES:
+            es = sorted(rc_entries.get(rc) or [])
+            if not es:
+                continue
+            w = first[tuple(es[0])]
+            prop.append(dict(property="C06", id=rc, status="open", **{"class": "%d (file, object, kind) triples listed in corpus/C06/known.json; call site %s" % (len(es), site)},
+                             what=what, witness=dict(file="testdata/" + w["file"], object=w["path"], kind=w["kind"], reference=w["expected"], reader=w["got"], ddl=w["ddl"]),
+                             coq=COQ.get(rc), fix=FIX.get(rc), entries=len(es)))
+        with open(os.path.join(os.path.dirname(c06.KNOWN_PATH), "known_findings_proposed.json"), "w") as fh:
+            json.dump(dict(findings=prop), fh, indent=1)
     vlib.cleanup()
 
 
